@@ -55,6 +55,8 @@ type sworld struct {
 	seq  int
 	root string
 	mems map[int]*smem
+	// dc-locations that currently have a server (server id -> dc), as written by dcjoin / dcleave
+	present map[string]string
 }
 
 func (w *sworld) reset() {
@@ -67,6 +69,7 @@ func (w *sworld) reset() {
 		m.client.Close()
 	}
 	w.mems = map[int]*smem{}
+	w.present = map[string]string{}
 	w.seq++
 	w.root = fmt.Sprintf("/verif/sfx/%d", w.seq)
 }
@@ -118,8 +121,10 @@ func (w *sworld) exec(f []string) string {
 		if err != nil {
 			panic(err)
 		}
+		w.present[f[1]] = f[2]
 		return "ok"
 	case f[0] == "dcleave" && len(f) == 2:
+		delete(w.present, f[1])
 		_, err := w.e.Client.Delete(context.Background(), path.Join(w.root, "dc-location", f[1]))
 		if err != nil {
 			panic(err)
@@ -142,7 +147,17 @@ func (w *sworld) exec(f []string) string {
 		}
 		if f[0] == "checker" {
 			m.am.ClusterDCLocationChecker()
-			return "ok"
+			// the suffix width this member now reports with its timestamps, and the dc-locations in use
+			seen := map[string]bool{}
+			var dcs []string
+			for _, dc := range w.present {
+				if !seen[dc] {
+					seen[dc] = true
+					dcs = append(dcs, dc)
+				}
+			}
+			sort.Strings(dcs)
+			return fmt.Sprintf("ok bits=%d;%s", m.am.GetSuffixBits(), strings.Join(dcs, ","))
 		}
 		parked := m.gate.ArmPark()
 		done := make(chan struct{})
